@@ -21,11 +21,26 @@ func (o *Obligation) smt() string {
 	b.WriteString("(set-option :produce-models true)\n(set-logic ALL)\n")
 	b.WriteString(prelude)
 	if o.tx != nil {
-		b.WriteString(o.tx.d.text(-1))
+		dt := o.tx.d.text(-1)
+		if o.Cover {
+			// reachability covers are decided modulo the quantified axioms/frames (dropping assumptions can only
+			// make a cover easier to satisfy; the dropped ones are conservative definitions)
+			keep := []string{}
+			for _, l := range strings.Split(dt, "\n") {
+				if !strings.Contains(l, "(forall ") {
+					keep = append(keep, l)
+				}
+			}
+			dt = strings.Join(keep, "\n")
+		}
+		b.WriteString(dt)
 		b.WriteString("\n")
 		b.WriteString(o.tx.d.strDistinct())
 		b.WriteString("\n")
 		for i := 0; i < o.NAssume && i < len(o.tx.assumes); i++ {
+			if o.Cover && (strings.Contains(o.tx.assumes[i], "(forall ") || strings.Contains(o.tx.assumes[i], "(exists ")) {
+				continue
+			}
 			b.WriteString("(assert " + o.tx.assumes[i] + ")\n")
 		}
 	}
